@@ -450,7 +450,9 @@ func (s *Stream) handleFrame(f Frame) (err error) {
 		}
 	}
 
-	if err != nil {
+	if err != nil && s.state != StateClosedByUs {
+		// Once our Close frame is queued or sent, no further Close may follow it
+		// (RFC 6455 5.5.1): a violation seen while closing is only reported.
 		s.state = StateClosedByUs
 		// TODO consider flushing the close
 		s.prepareClose(EncodeCloseFramePayload(CloseProtocolError, ""))
